@@ -181,6 +181,22 @@ class BNF:
         return any(s == ('n', r.name) for a in r.alts for s in a.syms)
 
     # -- analysis ------------------------------------------------------------------------------------------
+    def used_terminals(self):
+        """Names of the terminals that occur in rules reachable from the start symbol (lark compiles only those into a lexer)."""
+        seen, todo, used = set(), [self.start], set()
+        while todo:
+            n = todo.pop()
+            if n in seen or n not in self.rules:
+                continue
+            seen.add(n)
+            for a in self.rules[n].alts:
+                for sym in a.syms:
+                    if sym[0] == 'n':
+                        todo.append(sym[1])
+                    elif sym[0] == 't':
+                        used.add(sym[1])
+        return used
+
     def productive(self):
         prod = set()
         changed = True
